@@ -158,6 +158,7 @@ class Peer:
 
     def add(self, c, kind, n, truncate=None, partial=None):
         b, head_len, final = unit(self.next_u, kind, n)
+        full_len = len(b)
         if truncate is not None:
             b = b[:max(head_len, len(b) - truncate)]
         if partial is not None:
@@ -165,7 +166,8 @@ class Peer:
         start = self.sent.get(c, 0)
         self.units.setdefault(c, []).append({"u": self.next_u, "start": start, "head": min(head_len, len(b)),
                                               "end": start + len(b), "kind": kind, "final": final,
-                                              "open": kind == "eofbody"})
+                                              "open": kind == "eofbody" or truncate is not None,
+                                              "decl_end": (start + full_len) if truncate is not None else None})
         self.pending.setdefault(c, bytearray()).extend(b)
         self.sent[c] = start + len(b)
         self.next_u += 1
@@ -409,6 +411,16 @@ def oracle(ctx, R, units, case):
                             break
                 if le not in (None, "none-yet") and e > le:
                     dirty.setdefault(c, "surplus-bytes")
+            if holder is not None:
+                o = req_off.get((c, holder), 0)
+                for un in units.get(c, []):
+                    if un["start"] >= o and un["final"]:
+                        # the answer itself says the connection ends with it
+                        r = R.resps[holder] if holder < len(R.resps) else None
+                        if (un["kind"] in ("close", "http10", "eofbody") and un["start"] + un["head"] <= e
+                                and r is not None and r.headers.get("X-U") == str(un["u"])):
+                            dirty.setdefault(c, "peer-announced-close")
+                        break
             for un in units.get(c, []):
                 if un["kind"] == "101" and un["start"] + un["head"] <= e and un["start"] >= req_off.get((c, holder), 1 << 60):
                     dirty.setdefault(c, "upgraded")
@@ -458,10 +470,12 @@ def oracle(ctx, R, units, case):
             if un.get("open"):
                 # body delimited by connection close: everything the peer sent until then is this body
                 if body:
-                    bad += [t for t in tags(c, un["start"] + un["head"], off.get(c, 0) + 1) if t != j]
+                    lim = un["decl_end"] if un.get("decl_end") else off.get(c, 0) + 1
+                    bad += [t for t in tags(c, un["start"] + un["head"], lim) if t != j]
             else:
                 exp = (b"%d;" % u) * (len(body) // len(b"%d;" % u) + 1)
-                if body and body != exp[:len(body)]:
+                if body and body != exp[:len(body)] and not bad and un["kind"] in ("cl", "chunked", "close", "http10", "http10ka"):
+                    # (a head that is itself foreign is reported as such; a HEAD-style unit consumed by a GET is the peer's lie)
                     viol.append(("C06/stale-bytes/mixed-body", f"response {j} body (unit {u}) holds foreign bytes: {body[:40]!r}"))
                 if un["end"] > un["start"] + un["head"] and body:
                     body_tags = tags(c, un["start"] + un["head"], un["end"])
@@ -607,8 +621,8 @@ def evaluate(ctx, R, units, variants, cfg, where, sample=False):
 
 def check(ctx):
     rng = ctx.rng
-    n_same = 1800 if ctx.quick else 60000
-    n_keys = 400 if ctx.quick else 10000
+    n_same = 1200 if ctx.quick else 50000
+    n_keys = 300 if ctx.quick else 8000
     jobs = []
     for i in range(n_same + n_keys):
         cfg = cfg_draw(rng)
